@@ -250,7 +250,7 @@ def check(ctx):
         # extension literal
         ext_ok = False
         for k2, g in P.fns.items():
-            if k2.startswith(f.id + "::{closure"):
+            if k2 in P.family(f.id) and "::{closure" in k2:
                 for cc in g.calls:
                     for i in range(len(cc.args)):
                         if cc.arg_str(i) == "rs":
